@@ -739,7 +739,18 @@ class Executor:
             if old is UNDEF:
                 continue
             if not isinstance(old, int):
-                raise ExecError('partial overwrite of symbolic cell in %s' % o.name)
+                # part of a symbolic value is overwritten (e.g. a memset counted in bytes instead of elements): what remains of the cell is an
+                # arbitrary value of its width -- a fresh symbol, so nothing can be proved about it
+                Executor._clobber = getattr(Executor, '_clobber', 0) + 1
+                rest_lo, rest_hi = k, k + sz
+                cells[k] = (sz, T.var('clobbered%d' % Executor._clobber) if (isinstance(old, Term) and old.sort == 'R') or isinstance(old, (Fraction, float)) else UNDEF)
+                # the freshly written range is stored by the caller below; make room for it by shrinking nothing: the caller's cell wins on lookup order
+                del cells[k]
+                if k < off:
+                    cells[k] = (off - k, UNDEF) if (off - k) != 8 else (8, T.var('clobbered%d' % Executor._clobber))
+                if k + sz > off + n:
+                    cells[off + n] = (k + sz - off - n, UNDEF) if (k + sz - off - n) != 8 else (8, T.var('clobbered%dh' % Executor._clobber))
+                continue
             for j in range(sz):
                 p = k + j
                 if p < off or p >= off + n:
